@@ -778,6 +778,31 @@ func validateAll(ctx *vrun.Ctx, t tier, traces []*Trace) ([]*verdict, error) {
 				lo += n
 				if lo < j.hi {
 					k, err := stuckAt(ctx, traces[lo])
+					if err == nil && k < len(traces[lo].Events) && traces[lo].Events[k].K == "quiet" {
+						// The "quiet" observation (every goroutine of the package blocked in one
+						// goroutine dump) is an optional hint that keeps the search small.  A trace
+						// that is stuck exactly there is judged without these hints.
+						cp := *traces[lo]
+						cp.Events = nil
+						for _, e := range traces[lo].Events {
+							if e.K != "quiet" {
+								cp.Events = append(cp.Events, e)
+							}
+						}
+						var br2 *batchResult
+						br2, _, err = validateBatch(ctx, []*Trace{&cp}, false)
+						if err == nil {
+							ctx.AddExtra("quiet_observations_retracted", 1)
+							if v, ok := br2.accepted[0]; ok {
+								vv := v
+								verdicts[lo] = &vv
+								lo++
+								continue
+							}
+							*traces[lo] = cp
+							k, err = stuckAt(ctx, traces[lo])
+						}
+					}
 					if err != nil {
 						mu.Lock()
 						if firstErr == nil {
@@ -933,6 +958,7 @@ func RunX01(ctx *vrun.Ctx) error {
 	ctx.Assume("RetryDuration is 2-3 ms and maxRetryDuration is lowered to 7 ms in the driver process (bound by name, no source change); timer firing is an unobserved step of the specification")
 	ctx.Assume("the duration of an armed retry timer and the handler's decisions are observed through the package's debug log (UseLogger), all other events at the functions put into Config and at the calls of the public methods")
 	ctx.Assume("the user calls Connect at most once per ConnReq")
+	ctx.Assume("a 'quiet' observation (goroutine dump with every goroutine of the package blocked) is a search hint: a trace that is stuck at one is judged again without these observations")
 	ctx.Assume("statement S6 (DynamicBanScore arithmetic) is not specified or checked by this engine yet")
 
 	var mcErr, banErr error
